@@ -190,6 +190,30 @@ func c13Check(cs *drv.Case, fields []ref.Field) {
 			fail("getunknownfields-tree", "tree from GetUnknownFields(value) differs at %s", d)
 			return
 		}
+		// an application struct that embeds the generated one (by value, by pointer): the bytes are still its own
+		type outerV struct {
+			Y string
+			holderA
+		}
+		type outerP struct {
+			*holderA
+			Z int
+		}
+		hc := append([]byte(nil), wire...)
+		g3, e3 := uf.GetUnknownFields(&outerV{Y: "y", holderA: holderA{X: 2, _unknownFields: hc}})
+		g4, e4 := uf.GetUnknownFields(outerP{holderA: &holderA{X: 3, _unknownFields: hc}, Z: 4})
+		if e3 != nil || e4 != nil {
+			fail("getunknownfields-error", "GetUnknownFields on a struct that embeds the holder failed: by value %v, by pointer %v", e3, e4)
+			return
+		}
+		if d := diffFields(g3, want); d != "" {
+			fail("getunknownfields-tree", "tree from a struct embedding the holder by value differs at %s", d)
+			return
+		}
+		if d := diffFields(g4, want); d != "" {
+			fail("getunknownfields-tree", "tree from a struct embedding the holder by pointer differs at %s", d)
+			return
+		}
 	}
 	// conversely: the expected (well-typed) tree survives write-then-convert
 	l2, err := uf.UnknownFieldsLength(want)
